@@ -70,6 +70,20 @@ def jtagsCanon (tags : List Tag) : Json :=
 def jentry (e : Entry) : Json :=
   Json.mkObj [("c", .str e.cat), ("n", .str e.name), ("v", jvalue e.value), ("t", jtagsCanon e.tags)]
 
+/-- a stored key entry in the model: value = algorithm, NUL, then "1"+metadata or "0" -/
+def keyValue (alg : String) (md : Option String) : Bytes :=
+  utf8 alg ++ [0] ++ (match md with | some m => utf8 ("1" ++ m) | none => utf8 "0")
+
+def keyAlg (v : Bytes) : String := (String.fromUTF8? (ByteArray.mk (v.takeWhile (· != 0)).toArray)).getD ""
+
+def keyMeta (v : Bytes) : Json :=
+  match (v.dropWhile (· != 0)).drop 1 with
+  | 49 :: rest => .str ((String.fromUTF8? (ByteArray.mk rest.toArray)).getD "")
+  | _ => .null
+
+def jkey (e : Entry) : Json :=
+  Json.mkObj [("n", .str e.name), ("alg", .str (keyAlg e.value)), ("md", keyMeta e.value), ("t", jtagsCanon e.tags)]
+
 def entryLt (a b : Entry) : Bool :=
   if a.cat != b.cat then strLt a.cat b.cat else strLt a.name b.name
 
@@ -251,7 +265,7 @@ def resolveNewKey (m : String) (p : Option String) : Except Err Unit :=
   if m == "raw" then
     match p with
     | none => .error .input
-    | some k => if validRawKeys.contains k then .ok () else .error .input
+    | some k => if validRawKeys.contains k then .ok () else .error .input     -- blank: refused; else base58 / length
   else if m == "none" then .ok ()
   else match p with
     | none => .error .input
@@ -282,7 +296,7 @@ def evalOp (w : World) (i : Nat) (j : Json) : World × Json :=
     asyncEntry w j .required none dec fun w =>
       let profile := ((cstr j "profile").intoOptString).getD "default"
       let b : Backend := { db := { profiles := [⟨1, profile, 0⟩] }, h := { cache := [(profile, 1, 0)], nextKey := 1 }, active := profile,
-                           keyM := "raw", keyP := (cstr j "pass").asOptStr, defProfile := profile }
+                           keyM := "raw", keyP := some (((cstr j "pass").asOptStr).getD "7Z8ftDAzMvoyXnGEJye8DurzgFQXLAbYCaeeesM7UKHa"), defProfile := profile }
       let bi := w.backends.size
       let (h, stores) := w.stores.insert 0 bi
       (setSlot { w with stores := stores, backends := w.backends.push b, prov := (i, bi) :: w.prov } i (.handle h), .ok (Json.mkObj [("h", jnat h)]))
@@ -563,7 +577,8 @@ def evalOp (w : World) (i : Nat) (j : Json) : World × Json :=
           match w.backends[bi]? with
           | none => (w, .error .unexpected)
           | some b =>
-            let p := (cstr j "pass").asOptStr
+            -- `pass_key.as_ref()`: `PassKey::as_ref` turns an absent pass key into a present empty one
+            let p := some (((cstr j "pass").asOptStr).getD "")
             match resolveNewKey m p with
             | .error e => (w, .error e)
             | .ok _ =>
@@ -619,7 +634,88 @@ def evalOp (w : World) (i : Nat) (j : Json) : World × Json :=
         match w.backends[bi]? with
         | none => (w, .error .unexpected)
         | some b => (setBackend w bi { b with defProfile := ((cstr j "name").intoOptString).getD "" }, .ok "ok")
+  | "key_insert" =>
+    let sh := handleArg w w.sessions.counter j
+    let dec : Except Err (String × String × Option (List Tag)) := do
+      let alg ← (match (w.slots[(((j.getObjVal? "key").toOption.bind fun k => k.getNat?.toOption).getD 1000000)]?) with
+        | some (.key alg) => Except.ok alg
+        | _ => Except.error Err.input)                       -- `key_handle.load()`: NULL ⇒ "Invalid handle"
+      let n ← required (cstr j "n")
+      let t ← decodeTagsArg keysBorrowedOnly (cstr j "tt")
+      pure (alg, n, t)
+    asyncEntry w j .required none (dec.map fun _ => ()) fun w =>
+      match dec with
+      | .error e => (w, .error e)
+      | .ok (alg, n, t) =>
+        sessionTask sh (fun w s b bi =>
+          if b.lockedByOther sh then (w, .error .backend) else
+          let (db', out) := step sqliteLike page 0 s (b.view sh) (.insert 1 "key" n (keyValue alg (cstr j "md").intoOptString) t none)
+          match out with
+          | .ok => (setBackend w bi (b.write sh db'), .ok "ok")
+          | .err e => (w, .error e)
+          | _ => (w, .error .unexpected)) w
+  | "key_update" =>
+    let sh := handleArg w w.sessions.counter j
+    let dec : Except Err (String × Option (List Tag)) := do
+      let n ← required (cstr j "n")
+      let t ← decodeTagsArg keysBorrowedOnly (cstr j "tt")
+      pure (n, t)
+    asyncEntry w j .required none (dec.map fun _ => ()) fun w =>
+      match dec with
+      | .error e => (w, .error e)
+      | .ok (n, t) =>
+        sessionTask sh (fun w s b bi =>
+          match doFetch (b.view sh) 0 s 1 "key" n with
+          | none => (w, .error .notFound)
+          | some e =>
+            if b.lockedByOther sh then (w, .error .backend) else
+            let (db', out) := step sqliteLike page 0 s (b.view sh) (.replace 1 "key" n (keyValue (keyAlg e.value) (cstr j "md").intoOptString) (some (t.getD [])) none)
+            match out with
+            | .ok => (setBackend w bi (b.write sh db'), .ok "ok")
+            | .err e => (w, .error e)
+            | _ => (w, .error .unexpected)) w
+  | "key_remove" =>
+    let sh := handleArg w w.sessions.counter j
+    let dec := required (cstr j "n")
+    asyncEntry w j .required none (dec.map fun _ => ()) fun w =>
+      match dec with
+      | .error e => (w, .error e)
+      | .ok n =>
+        sessionTask sh (fun w s b bi =>
+          if b.lockedByOther sh then (w, .error .backend) else
+          let (db', out) := step sqliteLike page 0 s (b.view sh) (.remove 1 "key" n)
+          match out with
+          | .ok => (setBackend w bi (b.write sh db'), .ok "ok")
+          | .err e => (w, .error e)
+          | _ => (w, .error .unexpected)) w
+  | "key_fetch" =>
+    let sh := handleArg w w.sessions.counter j
+    let dec := required (cstr j "n")
+    asyncEntry w j .required none (dec.map fun _ => ()) fun w =>
+      match dec with
+      | .error e => (w, .error e)
+      | .ok n =>
+        sessionTask sh (fun w s b _ =>
+          match doFetch (b.view sh) 0 s 1 "key" n with
+          | none => (w, .ok (Json.mkObj [("keys", .null)]))
+          | some e => (w, .ok (Json.mkObj [("keys", Json.mkObj [("count", jnat 0), ("rows", .arr #[jkey e])])]))) w
+  | "key_fetch_all" =>
+    let sh := handleArg w w.sessions.counter j
+    asyncEntry w j .required none okUnit fun w =>
+      sessionTask sh (fun w s b _ =>
+        match doFetchAll sqliteLike (b.view sh) 0 s (some 1) (some "key") none none false with
+        | .error e => (w, .error e)
+        | .ok es =>
+          let es := match (cstr j "alg").intoOptString with
+            | none => es
+            | some a => es.filter fun e => keyAlg e.value == a
+          match decodeLimit (int! j "lim") with
+          | some l => (w, .ok (Json.mkObj [("keys", Json.mkObj [("count", jnat (min l.toNat es.length))])]))
+          | none => (w, .ok (Json.mkObj [("keys", Json.mkObj [("count", jnat es.length), ("rows", .arr ((sortBy entryLt es).map jkey).toArray)])]))) w
   | "version" => (w, jsync .success "version")
+  | "key_roundtrip" =>
+    let alg := ((cstr j "alg").asOptStr).getD ""
+    (w, jsync (if ["ed25519", "x25519", "a128gcm", "a256gcm", "c20p", "xc20p", "p256", "k256", "bls12381g1"].contains alg then .success else .unsupported) .null)
   | "current_error" =>
     (w, Json.mkObj [("code", match w.lastErr with | some n => jnat n | none => "any")])
   | "set_max_log_level" =>
@@ -660,8 +756,8 @@ def trackLastErr (w : World) (op o : Json) : World :=
   let r := str! o "r"
   let cbe := match o.getObjVal? "cb" with | .ok cb => str! cb "err" | .error _ => ""
   if r == "Unexpected" || cbe == "Unexpected" then { w with lastErr := some 0 } else
-  if (name == "store_close" || name == "session_close") && !bool! op "cb" then { w with lastErr := none } else
-  if name == "store_open" || name == "null_probe" then { w with lastErr := none } else
+  if (name == "store_close" && !bool! op "cb") || name == "key_roundtrip" then { w with lastErr := none } else
+  if name == "null_probe" then { w with lastErr := some 5 } else
   if cbe != "" then { w with lastErr := some (codeNum cbe) } else
   if r != "" && r != "Success" then
     if (name == "fetch_all" || name == "scan_start") && r == "Unsupported" then w else { w with lastErr := some (codeNum r) }
